@@ -50,6 +50,24 @@ class C02(Check):
             add("bytesvec", [G.hexb(rng, rng.choice([0, 1, 127, 128, 255, 256, 16383, 16384]))], "bytesvec")
             add("hash", [G.key(rng)], "hash")
             add("hash8", [G.hexb(rng, 8)], "hash")
+        # strings: valid UTF-8 through the round trip, arbitrary bytes through the decoder (accept iff well-formed UTF-8)
+        texts = ["", "a", "monero", "\u00e9", "\u00b5XMR", "\u20ac", "\ud7ff", "\ue000", "\uffff", "\U00010000", "\U0010ffff", "x" * 127, "y" * 128,
+                 "\u00e9" * 64, "\x00", "\x7f"]
+        for t in texts:
+            add("string", [t.encode("utf-8").hex() or "-"], "string-valid")
+        bad = [b"\x80", b"\xc0\x80", b"\xc1\xbf", b"\xc2", b"\xe0\x80\x80", b"\xe0\x9f\xbf", b"\xed\xa0\x80", b"\xed\xbf\xbf",
+               b"\xf0\x80\x80\x80", b"\xf0\x8f\xbf\xbf", b"\xf4\x90\x80\x80", b"\xf5\x80\x80\x80", b"\xff", b"\xe2\x82", b"a\xe2\x82",
+               b"\xf0\x9f\x98", b"\xc2\x41", b"\xef\xbf\xbe", b"\xf4\x8f\xbf\xbf", b"\xee\x80\x80"]
+        for b in bad:
+            cs.append(Case("dec %s string %s" % (sz, (bytes([len(b)]) + b).hex()), "string-arbitrary"))
+        for _ in range(300 if not thorough else 5000):
+            n = rng.choice([1, 2, 3, 4, 5, 6])
+            b = bytes(rng.choice([0x41, 0x7f, 0x80, 0xbf, 0xc0, 0xc2, 0xdf, 0xe0, 0xed, 0xef, 0xf0, 0xf4, 0xf5, 0x9f, 0xa0, 0x8f, 0x90,
+                                  rng.getrandbits(8)]) for _ in range(n))
+            cs.append(Case("dec %s string %s" % (sz, (bytes([len(b)]) + b).hex()), "string-arbitrary"))
+        add("klrki", [G.key(rng) for _ in range(4)], "multisig")
+        for n in (0, 1, 2, 127, 128):
+            add("multisigout", G.lst([[G.key(rng)] for _ in range(n)]), "multisig")
         add("rangesig", G.rangesig(rng), "rangesig")
         add("key64", [G.hexb(rng, 2048)], "key64")
         for t in range(7):
@@ -75,6 +93,17 @@ class C02(Check):
 
     def oracle(self, case, impl, ctx):
         w = impl.split(" ")
+        if case.line.startswith("dec "):
+            # String::from_utf8 must accept exactly well-formed UTF-8 (python's strict decoder is the independent reference)
+            raw = bytes.fromhex(case.line.split(" ")[3])[1:]
+            try:
+                raw.decode("utf-8")
+                ok = True
+            except UnicodeDecodeError:
+                ok = False
+            if (w[0] == "OK") != ok:
+                return "String decode %s for bytes %s (well-formed UTF-8: %s)" % (w[0], raw.hex(), ok)
+            return None
         if w[0] != "OK":
             return "serialise/parse of a well-formed value did not return: " + impl[:80]
         hx = "" if w[1] == "-" else w[1]
